@@ -112,7 +112,8 @@ theorem read2_step (r : LazyDec2.R2) (len : Nat) :
 open LazyXz in
 def DeadX (x : LazyXz.X) : Prop :=
   x.sr = none ∧
-  (if x.single then ¬ x.pos < x.inp.size else LazyXz.readLoop.skip x (x.inp.size / 4 + 2) x.pos = .fail .eof)
+  (if x.single then ¬ x.pos < x.inp.size else LazyXz.readLoop.skip x (x.inp.size / 4 + 2) x.pos = .fail .eof) ∧
+  x.srcErr = false
 
 theorem readLoopX_eof (len : Nat) : ∀ (fuel : Nat) (x : LazyXz.X) (acc : ByteArray),
     (LazyXz.readLoop len fuel x acc).2.2 = .eof → DeadX (LazyXz.readLoop len fuel x acc).1 := by
@@ -134,8 +135,12 @@ theorem readLoopX_eof (len : Nat) : ∀ (fuel : Nat) (x : LazyXz.X) (acc : ByteA
       · rw [if_pos hs] at h ⊢
         by_cases hp : x.pos < x.inp.size
         · rw [if_pos hp] at h; cases h
-        · rw [if_neg hp]
-          exact ⟨hsr, by rw [if_pos hs]; exact hp⟩
+        · rw [if_neg hp] at h ⊢
+          have hse : x.srcErr = false := by
+            cases hb : x.srcErr with
+            | false => rfl
+            | true => rw [hb] at h; cases h
+          exact ⟨hsr, by rw [if_pos hs]; exact hp, hse⟩
       · rw [if_neg hs] at h ⊢
         cases hsk : LazyXz.readLoop.skip x (x.inp.size / 4 + 2) x.pos with
         | ok sr pos => rw [hsk] at h; exact ih _ _ h
@@ -143,7 +148,7 @@ theorem readLoopX_eof (len : Nat) : ∀ (fuel : Nat) (x : LazyXz.X) (acc : ByteA
           rw [hsk] at h
           simp only at h ⊢
           subst h
-          exact ⟨hsr, by rw [if_neg hs]; exact hsk⟩
+          exact ⟨hsr, by rw [if_neg hs]; exact hsk, LazyXz.skip_fail_eof _ _ _ hsk⟩
         | padding p => rw [hsk] at h; cases h
     | some sr =>
       rw [hsr] at h
@@ -163,22 +168,22 @@ theorem readX_step (x : LazyXz.X) (len : Nat) :
   · intro _
     exact ⟨trivial, fun h => readLoopX_eof _ _ _ _ h⟩
   · intro hd
-    obtain ⟨h1, h2⟩ := hd
+    obtain ⟨h1, h2, h3⟩ := hd
     unfold LazyXz.read
     rw [show len + x.inp.size + 4 = (len + x.inp.size + 3) + 1 by omega, LazyXz.readLoop]
     have he : ByteArray.empty.size = 0 := rfl
     by_cases h0 : len = 0
     · rw [if_neg (by rw [he, h0]; omega)]
-      exact ⟨⟨h1, h2⟩, rfl, Or.inr ⟨rfl, h0, rfl⟩⟩
+      exact ⟨⟨h1, h2, h3⟩, rfl, Or.inr ⟨rfl, h0, rfl⟩⟩
     · rw [if_pos (by rw [he]; omega), h1]
       simp only
       by_cases hs : x.single = true
       · rw [if_pos hs] at h2 ⊢
-        rw [if_neg h2]
-        exact ⟨⟨h1, by rw [if_pos hs]; exact h2⟩, rfl, Or.inl rfl⟩
+        rw [if_neg h2, LazyXz.ite_src h3]
+        exact ⟨⟨h1, by rw [if_pos hs]; exact h2, h3⟩, rfl, Or.inl rfl⟩
       · rw [if_neg hs] at h2 ⊢
         rw [h2]
-        exact ⟨⟨h1, by rw [if_neg hs]; exact h2⟩, rfl, Or.inl rfl⟩
+        exact ⟨⟨h1, by rw [if_neg hs]; exact h2, h3⟩, rfl, Or.inl rfl⟩
 
 /-! ### classic: the ring stays a ring whatever happens; the end is reported only with an empty ring -/
 
@@ -285,7 +290,8 @@ theorem fill_W : ∀ (fuel : Nat) (l : LSt), W1 l → W1 (drSt (fill fuel l)) :=
     | dry l' =>
       rw [hr] at hd
       simp only [orSt] at hd
-      simp only [drSt, W1, hd]; exact h
+      simp only
+      split_ifs <;> (simp only [drSt, W1, hd]; exact h)
     | marker l' =>
       rw [hr] at hd
       simp only [orSt] at hd
